@@ -170,7 +170,7 @@ func init() {
 				c.violation("HARNESS", "store: "+err.Error(), nil)
 				continue
 			}
-			workers, rounds := 8, 40*c.scale
+			workers, rounds := 16, 120*c.scale
 			var wg sync.WaitGroup
 			var mu sync.Mutex
 			bad := 0
